@@ -706,3 +706,57 @@ def _closed(c, G, rng):
             return p
 
         drive(c, f"closed t{t}", real, [E, H], pairs, [], lambda out, ins: out["box_ou"], rng, lambda r: [_signed(r, E.shape), _signed(r, H.shape)])
+    _closed_phasor(c, G, rng)
+
+
+def _closed_phasor(c, G, rng):
+    """frequency-domain twin of the clause: ClosedSurfacePhasorPoyntingFluxDetector.compute_net_flux equals the signed sum
+    of PhasorPoyntingFluxDetector.compute_poynting_flux over its faces, in both scaling modes (face phasor states symbolic)."""
+    from fdtdx.objects.detectors.poynting_flux import ClosedSurfacePhasorPoyntingFluxDetector as CSP, PhasorPoyntingFluxDetector as PP
+    shape, lo, rs, widths = G["shape"], G["lo"], G["rs"], G["widths"]
+    waves = _waves()[:1]
+    dets = []
+    for sm in ("continuous", "pulse"):
+        for orient in ("outward", "inward"):
+            dets.append((CSP(name=f"cs_{sm[:1]}{orient[:2]}", partial_grid_shape=rs, orientation=orient, scaling_mode=sm, wave_characters=waves, dtype=jnp.complex128), lo))
+        for a in range(3):
+            for side in ("min", "max"):
+                flo = tuple(lo[i] + (rs[i] - 1 if (i == a and side == "max") else 0) for i in range(3))
+                dets.append((PP(name=f"pf_{sm[:1]}{a}{side}", partial_grid_shape=_plane(rs, a), direction="+" if side == "max" else "-", scaling_mode=sm,
+                                fixed_propagation_axis=a if sum(v == 1 for v in _plane(rs, a)) != 1 else None, wave_characters=waves, dtype=jnp.complex128), flo))
+    S = mini_scene(shape, widths, dets)
+    D, ST = S["det"], S["states"]
+    keys = sorted(ST["cs_cou"])
+    faces = [jx.symarr(f"F_{k}", np.shape(ST["cs_cou"][k]), cplx=True) for k in keys]
+
+    def real(*fs):
+        st = dict(zip(keys, fs))
+        o = {}
+        for sm in ("c", "p"):
+            for orient in ("ou", "in"):
+                o[f"cs_{sm}{orient}"] = D[f"cs_{sm}{orient}"].compute_net_flux(st)
+            for a in range(3):
+                for side in ("min", "max"):
+                    k = f"phasor_axis{a}_{side}"
+                    if k in st:
+                        o[f"pf_{sm}{a}{side}"] = D[f"pf_{sm}{a}{side}"].compute_poynting_flux({"phasor": st[k]})
+        return o
+
+    def pairs(out, ins):
+        p = []
+        for sm, nm in (("c", "continuous"), ("p", "pulse")):
+            tot = 0
+            for a in range(3):
+                for side in ("min", "max"):
+                    if f"pf_{sm}{a}{side}" in out:
+                        tot = sc.add(tot, jx.lift(out[f"pf_{sm}{a}{side}"]).reshape(-1)[0])
+            co, ci = jx.lift(out[f"cs_{sm}ou"]).reshape(()), jx.lift(out[f"cs_{sm}in"]).reshape(())
+            p.append((f"phasor closed surface ({nm}) == signed sum of its phasor face fluxes", f"closed-phasor:faces:{nm}", co, jx.obj0(tot)))
+            p.append((f"phasor closed surface ({nm}): inward orientation negates", "closed-phasor:inward", ci, o_neg(co)))
+        return p
+
+    def conc(r):
+        return [r.normal(size=f.shape) + 1j * r.normal(size=f.shape) for f in faces]
+
+    drive(c, "closed phasor", real, faces, pairs, [], lambda out, ins: out["cs_pou"], rng, conc)
+
